@@ -201,14 +201,14 @@ theorem node_match (g : Geo d.length 0 filled) (L k : Nat) (rs : Ranges) :
     refine .cons ⟨rfl, rfl⟩ (.append ?_ ?_)
     · by_cases hl : (lq 0 0 k rs).isEmpty = true
       · simp only [hl, if_true, Bool.not_true, Bool.false_eq_true, if_false]; exact .nil
-      · simp only [hl, if_false, Bool.not_false, if_true]
+      · simp only [hl, Bool.not_false, if_true]
         rw [leftLeaf_zero]
         unfold toBytes at hh ⊢
         obtain ⟨s1, s2⟩ := slice_full_chunk d (j := 2 * k) (by omega)
         exact .singleton ⟨e1.symm, by rw [s2]; omega, by rw [s1, e1, e2]; congr 1; omega⟩
     · by_cases hr : (rq 0 0 k rs).isEmpty = true
       · simp only [hr, if_true, Bool.not_true, Bool.false_eq_true, if_false]; exact .nil
-      · simp only [hr, if_false, Bool.not_false, if_true]
+      · simp only [hr, Bool.not_false, if_true]
         rw [rightLeaf_zero]
         unfold toBytes at hh ⊢
         obtain ⟨s1, s2⟩ := slice_last_chunk d (j := 2 * k + 1) (by omega)
@@ -221,5 +221,345 @@ theorem node_match (g : Geo d.length 0 filled) (L k : Nat) (rs : Ranges) :
     exact .cons ⟨rfl, rfl⟩ (.append (ihl (h.left hm)) (ihr (h.right g hlt)))
 
 end skeleton
+
+/-! ## the whole plan -/
+
+theorem log2ceil_min (f n : Nat) : log2ceil f n = 0 ∨ 2 ^ (log2ceil f n - 1) < n := by
+  induction f generalizing n with
+  | zero => left; rfl
+  | succ f ih =>
+    unfold log2ceil
+    by_cases h1 : n ≤ 1
+    · left; simp [h1]
+    · rw [if_neg h1]
+      right
+      simp only [Nat.add_sub_cancel]
+      rcases ih ((n + 1) / 2) with h0 | h0
+      · rw [h0]; simp; omega
+      · generalize log2ceil f ((n + 1) / 2) = l at h0 ⊢
+        cases l with
+        | zero => simp at h0 ⊢; omega
+        | succ l => simp only [Nat.add_sub_cancel] at h0; rw [Nat.pow_succ]; omega
+
+theorem blocks_zero_eq (size : Nat) : Tree.blocks ⟨size, 0⟩ = nChunks size := by
+  rw [Offsets.blocks_eq_nBlocks]
+  unfold nBlocks nChunks
+  simp
+
+/-- the height of the specification's root interval is the plan's root level plus one (except for
+the one-chunk blob, where the specification starts at the chunk itself) -/
+theorem log2ceil_rootLevel (size : Nat) (hs : size ≤ 2 ^ 63) (hn : 2 ≤ nChunks size) :
+    log2ceil 64 (nChunks size) = rootLevel ⟨size, 0⟩ + 1 := by
+  have h1 := Offsets.log2ceil_spec 64 (nChunks size) (Offsets.nChunks_le size hs)
+  have h2 := log2ceil_min 64 (nChunks size)
+  obtain ⟨h3, h4⟩ := rootLevel_char size 0 hs
+  rw [blocks_zero_eq] at h3 h4
+  generalize log2ceil 64 (nChunks size) = a at *
+  generalize rootLevel ⟨size, 0⟩ = r at *
+  generalize nChunks size = n at *
+  have ha : a ≠ 0 := by
+    rintro rfl; simp at h1; omega
+  rcases h2 with h2 | h2
+  · exact absurd h2 ha
+  have hle : a - 1 < r + 1 :=
+    (Nat.pow_lt_pow_iff_right (a := 2) (by decide)).1 (Nat.lt_of_lt_of_le h2 h3)
+  rcases h4 with h4 | h4
+  · omega
+  · have : r < a := (Nat.pow_lt_pow_iff_right (a := 2) (by decide)).1 (Nat.lt_of_lt_of_le h4 h1)
+    omega
+
+theorem rootLevel_one_chunk (size : Nat) (hs : size ≤ 2 ^ 63) (hn : nChunks size = 1) :
+    rootLevel ⟨size, 0⟩ = 0 := by
+  obtain ⟨-, h4⟩ := rootLevel_char size 0 hs
+  rw [blocks_zero_eq, hn] at h4
+  rcases h4 with h4 | h4
+  · exact h4
+  · have := two_pow_pos' (rootLevel ⟨size, 0⟩); omega
+
+/-- `Spec.items` as the items of the plan's root node -/
+theorem items_top (hf : HashFns H) (d : List UInt8) (bs : Nat) (q : Ranges)
+    (hd : d.length ≤ 2 ^ 63) :
+    Spec.items hf d bs q = itemsI hf d (nChunks d.length) bs (Spec.selected d.length q)
+      (rootLevel ⟨d.length, 0⟩ + 1) 0 := by
+  unfold Spec.items
+  simp only
+  by_cases hn : 2 ≤ nChunks d.length
+  · rw [log2ceil_rootLevel d.length hd hn]
+  · have h1 : nChunks d.length = 1 := by have := Ranges.nChunks_pos d.length; omega
+    rw [rootLevel_one_chunk d.length hd h1, itemsI_succ]
+    obtain ⟨e1, e2, e3⟩ := two_zero_geom 0
+    have hl : log2ceil 64 (nChunks d.length) = 0 := by rw [h1]; rfl
+    rw [hl, e1, e2, e3, itemsI_zero]
+    have hmin : min (2 * 0 + 2) (nChunks d.length) = 1 := by omega
+    rw [hmin]
+    have hany : anySel (Spec.selected d.length q) (2 * 0) 1 = Spec.selected d.length q 0 := by
+      simp [anySel]
+    rw [hany]
+    cases hsel : Spec.selected d.length q 0
+    · simp
+    · have hge : 2 * 0 + 1 ≥ nChunks d.length := by omega
+      simp [hge]
+
+/-- the invariant at the root -/
+theorem ninv_root {q : Ranges} (hwf : WF q = true) (size : Nat) (hs : size ≤ 2 ^ 63) :
+    NInv size (Tree.shifted ⟨size, 0⟩).2 (Spec.selected size q) (rootLevel ⟨size, 0⟩) 0
+      (truncate q size) := by
+  obtain ⟨-, hroot, hlt⟩ := rootLevel_spec size 0 hs
+  have h0 : startOf 0 (rootLevel ⟨size, 0⟩) = 0 := startOf_zero_left _
+  refine ⟨?_, ?_, ?_⟩
+  · rw [h0]; exact QInv.root hwf size (rootLevel_covers size 0 hs)
+  · intro c _ _; exact (C14.truncate_selected size hwf c).symm
+  · rw [h0]; omega
+
+/-- **the bridge**: the response plan of `(⟨d.length, bs⟩, truncate q)` and `Spec.items hf d bs q`
+have the same skeleton -/
+theorem plan_items (hf : HashFns H) (d : List UInt8) (bs : Nat) (q : Ranges)
+    (hd : d.length ≤ 2 ^ 63) (hwf : WF q = true) :
+    Skel (Match hf d) (plan ⟨d.length, 0⟩ bs (truncate q d.length)) (Spec.items hf d bs q) := by
+  rw [items_top hf d bs q hd]
+  exact node_match (shifted_geo d.length 0 hd (by omega)) _ _ _ (ninv_root hwf d.length hd)
+
+/-! ## the honest run -/
+
+/-- the item the decoder returns for a specification item -/
+def toItem (hf : HashFns H) : SItem → Item H
+  | .parent node bytes => .parent node (parsePair hf bytes).1 (parsePair hf bytes).2
+  | .leaf s bytes => .leaf (s * 1024) bytes
+
+/-- the stack after a parent with flags `lf`, `rf` -/
+def pushLR (lf rf : Bool) (l r : H) (stk : List H) : List H :=
+  (if lf then [l] else []) ++ ((if rf then [r] else []) ++ stk)
+
+theorem pushLR_not (a b : Bool) (l r : H) (stk : List H) :
+    pushLR (!a) (!b) l r stk = (if a then [] else [l]) ++ ((if b then [] else [r]) ++ stk) := by
+  cases a <;> cases b <;> rfl
+
+section run
+variable {hf : HashFns H} [BEq H] [LawfulBEq H]
+
+omit [BEq H] [LawfulBEq H] in
+theorem parsePair_pair (hrt : ∀ h, hf.ofBytes (hf.toBytes h) = h)
+    (hlen : ∀ h, (hf.toBytes h).length = 32) (l r : H) :
+    parsePair hf (hf.toBytes l ++ hf.toBytes r) = (l, r) := by
+  unfold parsePair
+  rw [List.take_left' (hlen l), List.drop_left' (hlen l), List.take_of_length_le (Nat.le_of_eq (hlen r)),
+    hrt, hrt]
+
+theorem runL_leaf_cons (s z : Nat) (flag : Bool) (x : Ranges) (bytes : List UInt8)
+    (hz : bytes.length = z) (p : List Chunk) (stk : List H) (y : List UInt8) :
+    runL hf (.leaf s z flag x :: p) (hashSubtree hf s bytes flag :: stk) (bytes ++ y)
+      = ⟨.leaf (s * 1024) bytes :: (runL hf p stk y).items, (runL hf p stk y).fin⟩ := by
+  have e1 : (bytes ++ y).take (Chunk.leaf s z flag x).size = bytes := List.take_left' hz
+  have e2 : (bytes ++ y).drop (Chunk.leaf s z flag x).size = y := List.drop_left' hz
+  rw [runL_cons, stepC_item_of (by simp [Chunk.size, ← hz]) (by rw [e1]; exact bne_self_eq_false _),
+    e1, e2]
+  rfl
+
+theorem runL_parent_cons (hrt : ∀ h, hf.ofBytes (hf.toBytes h) = h)
+    (hlen : ∀ h, (hf.toBytes h).length = 32) (node : Nat) (flag lf rf : Bool) (x : Ranges)
+    (l r : H) (p : List Chunk) (stk : List H) (y : List UInt8) :
+    runL hf (.parent node flag lf rf x :: p) (hf.parentCv l r flag :: stk)
+        ((hf.toBytes l ++ hf.toBytes r) ++ y)
+      = ⟨.parent node l r :: (runL hf p (pushLR lf rf l r stk) y).items,
+         (runL hf p (pushLR lf rf l r stk) y).fin⟩ := by
+  have hz : (hf.toBytes l ++ hf.toBytes r).length = 64 := by simp [hlen]
+  have e1 : ((hf.toBytes l ++ hf.toBytes r) ++ y).take (Chunk.parent node flag lf rf x).size
+      = hf.toBytes l ++ hf.toBytes r := List.take_left' hz
+  have e2 : ((hf.toBytes l ++ hf.toBytes r) ++ y).drop (Chunk.parent node flag lf rf x).size = y :=
+    List.drop_left' hz
+  have hp := parsePair_pair hrt hlen l r
+  rw [runL_cons, stepC_item_of (by simp [Chunk.size, hlen]; omega)
+    (by rw [e1]; simp only [check, hp]; exact bne_self_eq_false _), e1, e2]
+  simp only [itemOf, push, hp, pushLR]
+  cases lf <;> cases rf <;> rfl
+
+variable {d : List UInt8} {B filled root : Nat} {sel : Nat → Bool}
+
+omit [BEq H] [LawfulBEq H] in
+theorem toItem_parentItem (hrt : ∀ h, hf.ofBytes (hf.toBytes h) = h)
+    (hlen : ∀ h, (hf.toBytes h).length = 32) (k L : Nat) :
+    toItem hf (parentItem hf d k L) = .parent (nodeOf k L)
+      (cv hf d (startOf k L) (midOf k L) false)
+      (cv hf d (midOf k L) (min (endOf k L) (nChunks d.length)) false) := by
+  simp only [toItem, parentItem, parsePair_pair hrt hlen]
+
+theorem lt_length_of_lt_nChunks {len m : Nat} (hm0 : 0 < m) (hm : m < nChunks len) :
+    m * 1024 < len := by
+  unfold nChunks at hm; omega
+
+/-- the parent step at node `(k, L)`: the comparison succeeds by `cv_split` -/
+theorem node_parent_step (hrt : ∀ h, hf.ofBytes (hf.toBytes h) = h)
+    (hlen : ∀ h, (hf.toBytes h).length = 32) {k L : Nat} (hL : L < 64)
+    (hm : midOf k L < nChunks d.length) (flag lf rf : Bool) (x : Ranges) (p : List Chunk)
+    (stk : List H) (y : List UInt8) :
+    runL hf (.parent (nodeOf k L) flag lf rf x :: p)
+        (cv hf d (startOf k L) (min (endOf k L) (nChunks d.length)) flag :: stk)
+        ((parentItem hf d k L).bytes ++ y)
+      = ⟨toItem hf (parentItem hf d k L) ::
+          (runL hf p (pushLR lf rf (cv hf d (startOf k L) (midOf k L) false)
+            (cv hf d (midOf k L) (min (endOf k L) (nChunks d.length)) false) stk) y).items,
+         (runL hf p (pushLR lf rf (cv hf d (startOf k L) (midOf k L) false)
+            (cv hf d (midOf k L) (min (endOf k L) (nChunks d.length)) false) stk) y).fin⟩ := by
+  have hsm := startOf_lt_midOf k L
+  have e1 := startOf_eq k L
+  have e2 := midOf_eq k L
+  have e3 := endOf_eq k L
+  have hp := two_pow_pos' L
+  have hsplit := OutboardL.cv_split hf d (a := startOf k L) (m := midOf k L)
+    (b := min (endOf k L) (nChunks d.length)) (j := L) hL
+    (by omega) (by omega) (by omega)
+    (lt_length_of_lt_nChunks (by omega) hm) flag
+  rw [hsplit, toItem_parentItem hrt hlen]
+  exact runL_parent_cons hrt hlen _ _ _ _ _ _ _ _ _ _
+
+theorem level_lt_of_mid_lt (hd : d.length ≤ 2 ^ 63) {k L : Nat}
+    (hm : midOf k L < nChunks d.length) : L < 64 := by
+  have h1 : 2 ^ L < 2 ^ 64 := by
+    have : nChunks d.length ≤ 2 ^ 64 := Offsets.nChunks_le _ hd
+    rw [midOf_eq] at hm
+    omega
+  exact (Nat.pow_lt_pow_iff_right (a := 2) (by decide)).1 h1
+
+/-- the leaf step of the whole node `(k, L)` -/
+theorem node_leaf_step {k L : Nat}
+    (hsn : startOf k L < nChunks d.length) (x : Ranges) (p : List Chunk)
+    (stk : List H) (y : List UInt8) :
+    runL hf (nodeLeaf d.length 0 root L k x :: p)
+        (cv hf d (startOf k L) (min (endOf k L) (nChunks d.length)) (nodeOf k L == root) :: stk)
+        ((wholeLeaf d k L).bytes ++ y)
+      = ⟨toItem hf (wholeLeaf d k L) :: (runL hf p stk y).items, (runL hf p stk y).fin⟩ := by
+  obtain ⟨-, h2⟩ := slice_clip d hsn (startOf_lt_endOf k L)
+  rw [nodeLeaf_zero]
+  exact runL_leaf_cons _ _ _ _ _ (by unfold toBytes; exact h2) _ _ _
+
+theorem flatMap_bytes_cons (it : SItem) (I : List SItem) :
+    (it :: I).flatMap SItem.bytes = it.bytes ++ I.flatMap SItem.bytes := rfl
+
+/-- **the honest run of a subtree**: with the `Spec.cv` of the node's interval on top of the stack
+(nothing if the sub-query is empty), the decoder run over the node's plan on the node's honest bytes
+returns exactly the node's specification items, pops that hash and consumes exactly those bytes -/
+theorem node_run (hrt : ∀ h, hf.ofBytes (hf.toBytes h) = h)
+    (hlen : ∀ h, (hf.toBytes h).length = 32) (hd : d.length ≤ 2 ^ 63)
+    (g : Geo d.length 0 filled) {h : Nat} (hroot : root = nodeOf 0 h) (hrlt : root < filled)
+    (L k : Nat) (rs : Ranges) :
+    L ≤ h → NInv d.length filled sel L k rs → ∀ (stk : List H) (y : List UInt8),
+      runL hf (planPre d.length 0 B filled root L k rs)
+        ((if rs.isEmpty then [] else
+            [cv hf d (startOf k L) (min (endOf k L) (nChunks d.length)) (nodeOf k L == root)]) ++ stk)
+        ((itemsI hf d (nChunks d.length) B sel (L + 1) k).flatMap SItem.bytes ++ y)
+      = ⟨(itemsI hf d (nChunks d.length) B sel (L + 1) k).map (toItem hf), .ok stk y⟩ := by
+  subst hroot
+  refine planPre_induct (size := d.length) (bs := 0) (ml := B) (filled := filled) (root := nodeOf 0 h)
+    (P := fun L k rs p => L ≤ h → NInv d.length filled sel L k rs →
+      ∀ (stk : List H) (y : List UInt8),
+      runL hf p
+        ((if rs.isEmpty then [] else
+            [cv hf d (startOf k L) (min (endOf k L) (nChunks d.length)) (nodeOf k L == nodeOf 0 h)]) ++ stk)
+        ((itemsI hf d (nChunks d.length) B sel (L + 1) k).flatMap SItem.bytes ++ y)
+      = ⟨(itemsI hf d (nChunks d.length) B sel (L + 1) k).map (toItem hf), .ok stk y⟩)
+    ?_ ?_ ?_ ?_ ?_ ?_ ?_ L k rs
+  · -- nil
+    intro L k _ hn stk y
+    rw [items_nil hn]; rfl
+  · -- gone
+    intro k rs _ hge _ hn
+    have := hn.ex
+    rw [Offsets.startOf_zero] at this
+    rw [Offsets.nodeOf_zero] at hge
+    omega
+  · -- skip
+    intro L k rs hne hge ih hL hn stk y
+    have hm : nChunks d.length ≤ midOf k (L + 1) := g.skip_mid_ge hge
+    have hme := midOf_lt_endOf k (L + 1)
+    have := ih (by omega) (hn.skip g hge) stk y
+    rw [items_skip g hn hne hge]
+    rw [startOf_left, endOf_left, nodeOf_beq_false (by omega : L < h)] at this
+    have hf1 : (nodeOf k (L + 1) == nodeOf 0 h) = false := by
+      rw [beq_eq_false_iff_ne]; omega
+    rw [hf1, show min (endOf k (L + 1)) (nChunks d.length) = min (midOf k (L + 1)) (nChunks d.length)
+      by omega]
+    exact this
+  · -- query leaf
+    intro L k rs hne hlt hq _ hn stk y
+    have hrs := queryLeaf_all hq
+    have hLB := queryLeaf_lt hq
+    subst hrs
+    have hs := hn.start_lt g
+    have hit : itemsI hf d (nChunks d.length) B sel (L + 1) k = [wholeLeaf d k L] := by
+      by_cases hm : midOf k L < nChunks d.length
+      · exact items_all hn hm (by omega)
+      · cases L with
+        | succ L => exact absurd (g.mid_lt_nChunks hlt) hm
+        | zero => exact items_single g hn hne (by omega)
+    rw [hit]
+    simp only [List.isEmpty_cons, Bool.false_eq_true, if_false, List.singleton_append,
+      flatMap_bytes_cons, List.flatMap_nil, List.append_nil, List.map_cons, List.map_nil]
+    rw [node_leaf_step hs]; rfl
+  · -- half leaf
+    intro k rs hne hlt _ hh _ hn stk y
+    have hs := hn.start_lt g
+    have hm : nChunks d.length ≤ midOf k 0 :=
+      nChunks_le_of_le_toBytes (by have := startOf_lt_midOf k 0; omega) hh
+    rw [items_single g hn hne hm, isEmpty_eq_false hne]
+    simp only [Bool.false_eq_true, if_false, List.singleton_append,
+      flatMap_bytes_cons, List.flatMap_nil, List.append_nil, List.map_cons, List.map_nil]
+    rw [node_leaf_step hs]; rfl
+  · -- chunk group
+    intro k rs hne hlt hq hh _ hn stk y
+    have hm : midOf k 0 < nChunks d.length := lt_nChunks_of_toBytes_lt hh
+    obtain ⟨e1, e2, e3⟩ := two_zero_geom k
+    rw [items_parent g hn hne hm hq, itemsI_zero, itemsI_zero, sel_left_chunk hn hm,
+      sel_right_chunk hn hm, isEmpty_eq_false hne, nodeParent_zero]
+    simp only [Bool.false_eq_true, if_false, List.singleton_append, flatMap_bytes_cons,
+      List.append_assoc, List.map_cons]
+    rw [node_parent_step hrt hlen (by omega) hm, pushLR_not]
+    have hmin : min (endOf k 0) (nChunks d.length) = 2 * k + 2 := by omega
+    have hlenm : (2 * k + 1) * 1024 < d.length := by
+      unfold toBytes at hh; rw [e2] at hh; exact hh
+    obtain ⟨-, sl2⟩ := slice_full_chunk d (j := 2 * k) (by omega)
+    obtain ⟨-, sr2⟩ := slice_last_chunk d (j := 2 * k + 1) (by omega)
+    have hlz : (toBytes (midOf k 0) - toBytes (startOf k 0)) = 1024 := by
+      unfold toBytes; omega
+    have hrz : (slice d (2 * k + 1) (2 * k + 1 + 1)).length
+        = min (toBytes (endOf k 0)) d.length - toBytes (midOf k 0) := by
+      unfold toBytes; rw [sr2, e2, e3]
+    have hcl : cv hf d (startOf k 0) (midOf k 0) false
+        = hashSubtree hf (startOf k 0) (slice d (2 * k) (2 * k + 1)) false := by
+      unfold cv; rw [e1, e2]
+    have hcr : cv hf d (midOf k 0) (min (endOf k 0) (nChunks d.length)) false
+        = hashSubtree hf (midOf k 0) (slice d (2 * k + 1) (2 * k + 1 + 1)) false := by
+      unfold cv; rw [hmin, e2]
+    rw [leftLeaf_zero, rightLeaf_zero, hcl, hcr]
+    cases hl : (lq 0 0 k rs).isEmpty <;> cases hr : (rq 0 0 k rs).isEmpty <;>
+      simp only [Bool.not_true, Bool.not_false, Bool.false_eq_true, if_false, if_true,
+        List.nil_append, flatMap_bytes_cons, List.flatMap_nil,
+        List.append_nil, List.map_cons, List.map_nil, List.append_assoc, SItem.bytes, toItem,
+        List.cons_append]
+    · rw [runL_leaf_cons _ _ _ _ _ (by rw [sl2, hlz]), runL_leaf_cons _ _ _ _ _ hrz]
+      simp only [runL_nil, e1, e2]
+    · rw [runL_leaf_cons _ _ _ _ _ (by rw [sl2, hlz])]
+      simp only [runL_nil, e1]
+    · rw [runL_leaf_cons _ _ _ _ _ hrz]
+      simp only [runL_nil, e2]
+    · simp only [runL_nil]
+  · -- inner node
+    intro L k rs hne hlt hq ihl ihr hL hn stk y
+    have hm : midOf k (L + 1) < nChunks d.length := g.mid_lt_nChunks hlt
+    have hL64 := level_lt_of_mid_lt hd hm
+    have hsm := startOf_lt_midOf k (L + 1)
+    have hme := midOf_lt_endOf k (L + 1)
+    have il := ihl (by omega) (hn.left hm)
+    have ir := ihr (by omega) (hn.right g hlt)
+    rw [startOf_left, endOf_left, nodeOf_beq_false (by omega : L < h),
+      show min (midOf k (L + 1)) (nChunks d.length) = midOf k (L + 1) by omega] at il
+    rw [startOf_right, endOf_right, nodeOf_beq_false (by omega : L < h)] at ir
+    rw [items_parent g hn hne hm hq, isEmpty_eq_false hne, nodeParent_zero]
+    simp only [Bool.false_eq_true, if_false, List.singleton_append, flatMap_bytes_cons,
+      List.append_assoc, List.map_cons, List.flatMap_append, List.map_append]
+    rw [node_parent_step hrt hlen hL64 hm, pushLR_not, runL_append, il]
+    simp only [Out.bind]
+    rw [ir]
+
+end run
 
 end Bao.DecodeSpec
